@@ -116,6 +116,7 @@ class C13(Machine):
                    "read_after_two_windows", "large_time_offset",
                    "dense_station_network", "window_dict_reused",
                    "regular_grid", "loaded_from_file",
+                   "view_edited_before_window_change",
                    "non_float64_observable")
     real_vs_stub = {"real": ["Data, ClimateData, GeoGrid (constructors, "
                              "Load and its NetCDF import code, set_window, "
@@ -181,9 +182,11 @@ class C13(Machine):
                 # the caller may keep one window dictionary, edit it in place
                 # and pass the same object again
                 ops.append({"op": "set_window", "w": self._window(o),
-                            "alias": o.random() < 0.4})
+                            "alias": o.random() < 0.4,
+                            "scribble": o.random() < 0.25})
             elif c < 0.5:
-                ops.append({"op": "set_global_window"})
+                ops.append({"op": "set_global_window",
+                            "scribble": o.random() < 0.25})
             else:
                 k = o.randrange(1, 5)
                 names = sorted(o.sample(READS, k))
@@ -336,6 +339,15 @@ class C13(Machine):
         for step, op in enumerate(run["ops"]):
             R.steps += 1
             k = op["op"]
+            if op.get("scribble"):
+                # the caller has worked in place on the view it was given
+                # (e.g. Data.normalize_time_series_array(view), documented as
+                # in-place) and now moves on to another window: the samples
+                # behind later views are the original ones
+                v = C.call(obj.observable)
+                if isinstance(v, np.ndarray) and v.size:
+                    v[...] = 77          # valid in every dtype
+                    R.probe("view_edited_before_window_change")
             if k == "set_window":
                 w = self._resolve(op["w"], time, lat, lon, R)
                 tm, sm = model.masks(w)
